@@ -167,6 +167,56 @@ def run_case(case, acc, order):
                     'labels': 'all over {0,1}', 'calls': 'counts x cluster lists x chunks x subset'})
 
 
+PAIR_CALLS = [(cnt, cl, ch, sb) for cnt in (None, 1) for cl in ([0], [1, 0], [0, 7], [1])
+              for ch in (False, True) for sb in (None, 'even')]
+
+
+def run_pairs(case, acc, order):
+    """Histories of two calls on one selector: the second call must give what it gives on a fresh
+    selector (a selector carries no state from one call to the next). Draws are scripted (first k)."""
+    from phylib.io.array import SpikeSelector
+    times, bounds, labels, kept = case['times'], case['bounds'], case['labels'], case['kept']
+    n = len(times)
+    groups = {c: np.array([i for i in range(n) if labels[i] == c], dtype=np.int64) for c in (0, 1)}
+
+    def spc(cl):
+        return groups.get(cl, np.array([], dtype=np.int64))
+
+    def fresh():
+        return SpikeSelector(get_spikes_per_cluster=spc, spike_times=np.array(times, dtype=np.int64),
+                             chunk_bounds=list(bounds), n_chunks_kept=kept)
+
+    def call(sel, c):
+        cnt, cl, ch, sb = c
+        subset = None if sb is None else np.array([i for i in range(n) if i % 2 == 0], dtype=np.int64)
+        orig = np.random.choice
+        np.random.choice = lambda a, size=None, replace=True, p=None: np.asarray(a)[:size]
+        try:
+            return [int(x) for x in np.asarray(sel(cnt, list(cl), subset_chunks=ch,
+                                                   subset_spikes=subset)).tolist()]
+        except Exception as e:
+            return repr(e)
+        finally:
+            np.random.choice = orig
+    acc.state()
+    alone = {i: call(fresh(), c) for i, c in enumerate(PAIR_CALLS)}
+    for i, c1 in enumerate(PAIR_CALLS):
+        for j, c2 in enumerate(PAIR_CALLS):
+            sel = fresh()
+            call(sel, c1)
+            got = call(sel, c2)
+            acc.step(c1[1] != c2[1], 'pair')
+            if got != alone[j]:
+                sig = '%s/select-history/second-call-depends-on-first' % PROP
+                acc.violation(sig, core.make_record(
+                    PROP, 'select-history', sig, case=case,
+                    trace=[{'count': c1[0], 'clusters': c1[1], 'subset_chunks': c1[2], 'subset': c1[3]},
+                           {'count': c2[0], 'clusters': c2[1], 'subset_chunks': c2[2], 'subset': c2[3]}],
+                    expected=alone[j], observed=got), order * 10000 + i * 100 + j)
+    if order % 11 == 0:
+        acc.sample({'call_pairs_on': case})
+
+
 def self_test():
     assert expected_chunks([0, 2, 4, 5], 2) == ([0, 2], [(0, 2), (4, 5)])
     assert expected_chunks([0, 2, 4, 5], 5) == ([0, 1, 2], [(0, 2), (2, 4), (4, 5)])
@@ -199,12 +249,27 @@ def explore(ctx):
         cases = [c for i, c in enumerate(cases) if len(c['times']) <= 3 or (i + ctx.seed) % 3 == 0]
         ctx.notes['quick_slice'] = 'all configurations with <= 3 spikes; every third (by seed) with 4'
     ctx.run_cases(run_case, cases, sweep='selector')
+    # call histories of length 2 on one selector
+    pcases = []
+    for times in ([0, 1, 2, 3], [0, 0, 2, 4], [1, 2, 2, 3, 4]):
+        for labels in itertools.product((0, 1), repeat=len(times)):
+            if len(set(labels)) < 2:
+                continue
+            for bounds, kept in (([0, 2, 4], 1), ([0, 1, 3, 5], 2), ([0, 5], 1)):
+                pcases.append({'times': times, 'labels': list(labels), 'bounds': bounds, 'kept': kept})
+    if not ctx.thorough:
+        pcases = pcases[ctx.seed % 3::3]
+    ctx.run_cases(run_pairs, pcases, sweep='call-pairs')
     from . import c17_model
     c17_model.explore(ctx)
 
 
 def replay(record):
     imports()
+    if 'labels' in (record.get('case') or {}) and 'kept' in record['case']:
+        acc = core.Acc()
+        run_pairs(record['case'], acc, 0)
+        return [dict(v['record'], signature=s) for s, v in acc.violations.items()]
     if 'n_chunks' in (record.get('case') or {}):
         from . import c17_model
         return c17_model.replay(record)
